@@ -15,7 +15,7 @@ CHECK = {
             "{0,1,2,3,8,9,255,256,257,2047,2048,2049,4095,4096,4097,5000,8192,10000} (all lengths for the k256/dalek/curve25519 types in every tier, "
             "a subset containing 2049, 4097, 5000 for the others in the quick tier); in-place chains (+=, -=, *= by value and by reference, double, square, neg, invert, "
             "interleaved, up to 5000 steps / 10000 in the thorough tier, only the final value is read); un-normalised secp256k1 wrapper values "
-            "(results of invert/sqrt/sqrt_ratio/conditional_select/random/From<k256::FieldElement>) x every predicate/comparison/encoder/operator; "
+            "(results of invert/sqrt/sqrt_ratio/conditional_select/random, and lazily accumulated k256 elements of magnitude 2, 3, 8 injected through From<k256::FieldElement> - regression of the fixed finding k256.Fp:from-unnormalized) x every predicate/comparison/encoder/operator; "
             "limb-level: raw (also non-canonical) limb vectors x all pairs for the pure-Rust Montgomery code; towers: coefficient vectors over boundary classes, "
             "Sum/Product of the six extension types over lists up to 5000 vs the fold. Non-trivial = involves a random or band operand, or a list/chain; "
             "distinctness by hash of the request line",
@@ -25,7 +25,7 @@ CHECK = {
                    "the BLS scalar modulus is prime; Sum/Product folds equal the sum/product of the integers mod p for every list; ff's batch inversion "
                    "(Montgomery's trick, mirrored loop by loop) equals element-wise inversion over any field for every list; repeated in-place add/mul/double/square "
                    "have their closed forms; every method body of k256/base_field.rs (re-parsed on every run) keeps the magnitude <= 1 / predicates-on-normalised-values "
-                   "discipline except the known From<k256::FieldElement> hole, and the normalising Sum never exceeds magnitude 1 while a lazy Sum fails exactly from 2048 terms; "
+                   "discipline (the constructor From<k256::FieldElement> normalises a caller-supplied lazy element of any magnitude since the fix /repo 0cce575; the pinned body is shown unsafe by pinned_k256_from_unnormalized_defect), and the normalising Sum never exceeds magnitude 1 while a lazy Sum fails exactly from 2048 terms; "
                    "the curve25519 square root squares to its input given Euler's criterion and the kernel-checked constant 4*T_SQRT^4 = -1. "
                    "The model is tied to the code by running every public field operation of every exported field type — including the batched entry points on lists "
                    "that cross k256's magnitude budget (2047) and limb wrap (~4096), and in-place chains without intermediate serialisation — and comparing with the model "
